@@ -222,7 +222,7 @@ void parse_opml_token_chain(mmd_engine * e, token * chain) {
 		DString * metadata = d_string_new("");
 		DString * out = final;
 
-		size_t header_level = 0;
+		long header_level = 0;
 		size_t start, len;
 
 		walker = chain->next;
